@@ -1,6 +1,7 @@
 // c09: correspondence harness for property C09 (static rules, dialect options, recursion check).
-//   c09 resolve ...   planted static-rule violations x option vectors (resolve.go)
-//   c09 rec     ...   call graphs reaching an active function (recursion.go)
+//
+//	c09 resolve ...   planted static-rule violations x option vectors (resolve.go)
+//	c09 rec     ...   call graphs reaching an active function (recursion.go)
 package main
 
 import (
